@@ -19,6 +19,7 @@ OptsOf(name) ==
     [] name = "collapse"   -> [DefaultOpts EXCEPT !.collapse = TRUE]
     [] name = "single_pct" -> [DefaultOpts EXCEPT !.singlePct = TRUE]
     [] name = "skip_drive" -> [DefaultOpts EXCEPT !.skipDrive = TRUE]
+    [] name = "skip_trailing" -> [DefaultOpts EXCEPT !.skipTrail = TRUE]
     [] OTHER -> DefaultOpts
 ExactOptions == {"special_gopher", "set_path", "set_query", "set_squery", "set_frag", "set_sfrag"}
 
